@@ -19,18 +19,24 @@ type tInner struct {
 	Y string `json:"y,omitempty"`
 }
 
-type tBasic struct {
-	B   bool
+type tBasicInts struct {
 	I   int
 	I8  int8
 	I16 int16
 	I32 int32
 	I64 int64
+}
+
+type tBasicUints struct {
 	U   uint
 	U8  uint8
 	U16 uint16
 	U32 uint32
 	U64 uint64
+}
+
+type tBasicRest struct {
+	B   bool
 	F32 float32
 	F64 float64
 	S   string
@@ -47,22 +53,31 @@ type tTags struct {
 	private int
 }
 
-type tPointers struct {
-	P   *int
-	PP  **string
-	PS  *tInner
+type tPointersA struct {
+	P  *int
+	PP **string
+	PS *tInner
+}
+
+type tPointersB struct {
 	SP  []*int
 	MP  map[string]*bool
 	Any any
 }
 
-type tContainers struct {
-	S   []int8
-	SS  [][]string
-	A   [2]uint8
-	AS  [1][]bool
-	M   map[string]int16
-	MS  map[string][]float64
+type tContainersA struct {
+	S  []int8
+	SS [][]string
+	A  [2]uint8
+	AS [1][]bool
+}
+
+type tContainersB struct {
+	M  map[string]int16
+	MS map[string][]float64
+}
+
+type tContainersC struct {
 	MM  map[string]map[string]string
 	Opt []tInner `json:"opt,omitempty"`
 }
@@ -102,10 +117,27 @@ type tEmbedTagged struct {
 	Z        int
 }
 
+// EmbInt is an exported non-struct type, embedded below (encoding/json emits it as field "EmbInt").
+type EmbInt int
+
+type tEmbedScalar struct {
+	EmbInt
+	X int `json:"x"`
+}
+
+type TExportedBase struct {
+	K string `json:"k"`
+}
+
+type tEmbedTaggedExported struct {
+	TExportedBase `json:"nested,omitempty"`
+	*tEmbBase     `json:"ptr"`
+}
+
 type tStd struct {
 	T  time.Time
 	L  slog.Level
-	BI big.Int
+	BI *big.Int // (by value its pointer-receiver MarshalJSON is not called in a non-addressable position: outside the domain)
 	PT *time.Time `json:"pt,omitempty"`
 }
 
@@ -168,8 +200,9 @@ func TypeFamily() []TypeCase {
 		tc[map[string]int]("map[string]int"), tc[map[string][]uint16]("map[string][]uint16"), tc[map[string]*float32]("map[string]*float32"),
 		tc[map[tNamedStr]int]("map[tNamedStr]int"),
 		tc[tInner]("tInner"), tc[*tInner]("*tInner"), tc[[]tInner]("[]tInner"), tc[map[string]tInner]("map[string]tInner"),
-		tc[tBasic]("tBasic"), tc[tTags]("tTags"), tc[tPointers]("tPointers"), tc[tContainers]("tContainers"),
-		tc[tEmbedValue]("tEmbedValue"), tc[tEmbedPtr]("tEmbedPtr"), tc[tEmbedShadow]("tEmbedShadow"), tc[tEmbedAmbiguous]("tEmbedAmbiguous"), tc[tEmbedTagged]("tEmbedTagged"),
+		tc[tBasicInts]("tBasicInts"), tc[tBasicUints]("tBasicUints"), tc[tBasicRest]("tBasicRest"), tc[tTags]("tTags"),
+		tc[tPointersA]("tPointersA"), tc[tPointersB]("tPointersB"), tc[tContainersA]("tContainersA"), tc[tContainersB]("tContainersB"), tc[tContainersC]("tContainersC"),
+		tc[tEmbedValue]("tEmbedValue"), tc[tEmbedPtr]("tEmbedPtr"), tc[tEmbedShadow]("tEmbedShadow"), tc[tEmbedAmbiguous]("tEmbedAmbiguous"), tc[tEmbedTagged]("tEmbedTagged"), tc[tEmbedScalar]("tEmbedScalar"), tc[tEmbedTaggedExported]("tEmbedTaggedExported"),
 		tc[tNamed]("tNamed"), tc[tNamedInt]("tNamedInt"), tc[tNamedSlice]("tNamedSlice"), tc[tDup]("tDup"), tc[tWeirdTags]("tWeirdTags"),
 	}
 	std := tc[tStd]("tStd")
